@@ -188,6 +188,10 @@ func runC09(r *run) {
 			lvl = 100 + i // a number no earlier group has used: the first history sees it fresh
 			base.lvl = lvl
 		}
+		// the application builds the probe's attributes once and passes the same value every time
+		if len(base.attrs) > 0 && g.chance(1, 2) {
+			base.built = toAttrs(base.attrs)
+		}
 		var outputs []string
 		var hdescs []string
 		for h := 0; h < 4; h++ {
@@ -201,6 +205,22 @@ func runC09(r *run) {
 				encRun(r, "C09", c)
 				earlyTag = c09Tag(c.payload)
 				hd += "; a record at the probe's level before it is registered"
+			}
+			if base.built != nil && h > 0 && g.chance(1, 2) {
+				rec := &recorder{}
+				var hl slog.Logger = slog.New("h10").SetWriter(rec).SetErrorWriter(rec).SetLevel(slog.TraceLevel).SetColorMode(false)
+				var other slog.Logger = slog.New("h11").SetWriter(rec).SetErrorWriter(rec).SetLevel(slog.TraceLevel).SetJSONMode(true)
+				func() {
+					defer func() {
+						if p := recover(); p != nil {
+							r.violate(violation{What: "a log call panicked after the probe's attribute slice had been passed to an earlier call",
+								Input: map[string]any{"probe": encDescribe(base)}, Actual: fmt.Sprint(p)})
+						}
+					}()
+					hl.Info("an earlier call that was handed the probe's attribute slice", base.built)
+					other.Info("another record with its own attributes", "x", 1, "y", 2, "z", 3)
+				}()
+				hd += "; a verb call given the probe's Attrs value as its only argument, then another record"
 			}
 			c09Rest(r, hd)
 			if registerLate {
